@@ -1,8 +1,13 @@
 (* C12 - ISO-DEP exchanges each APDU exactly once or reports a tag error.
    Only statements here; proofs are in Proofs/IsoDep.v, Proofs/IsoDepSync.v, Proofs/IsoDepLegacy.v.
 
-   Reader  = IsoDepInitiator.exchange of tt4.py with fixes/c12-wtx-*.diff applied ([repaired k];
-             the R(ACK) budget fix_rack is not assumed: the theorems hold with and without it).
+   Reader  = IsoDepInitiator.exchange of tt4.py at HEAD b65ae89: fixes/c12-wtx-*.diff applied ([repaired k]; the R(ACK)
+             budget fix_rack is not assumed), S(WTX) without WTXM -> PROTOCOL_ERROR (c08-03), and the shared budget
+             [mx = Some max_extra_blocks] (65538) for S(WTX) requests + chained response blocks per exchange (c08-19):
+             [exchangex] returns the outcome and the final value of the counter n_extra.  Safety theorems hold for
+             EVERY budget (mx arbitrary, None = no budget); exactness theorems need the budget to cover what the card
+             announces, [need_extra] = its S(WTX) requests + the chained blocks of its response, plus one per faulty
+             round; beyond the budget the result is the documented error ([C12_isodep_over_budget]).
    Card    = [picc_absorb]: ISO/IEC 14443-4 block rules, ANY application [app], ANY S(WTX) plan.
    Air     = ANY script of (request fate, response fate) in {deliver, lose, corrupt}.
    [in_step pn c]: reader and card block numbers in step - after activation and after every
@@ -11,15 +16,15 @@
    exchange is the known finding witnessed by [C12_after_failed_exchange_refuted]. *)
 From Coq Require Import ZArith QArith List Bool.
 From NV Require Import Base.Result Base.Bytes Model.IsoDep Model.TagAct Gen.IsoDepK Proofs.IsoDep Proofs.IsoDepSync Proofs.IsoDepLegacy
-  Proofs.IsoDepApdu Proofs.IsoDepStream Proofs.IsoDepSession Bridge.IsoDep.
+  Proofs.IsoDepBudget Proofs.IsoDepApdu Proofs.IsoDepStream Proofs.IsoDepSession Bridge.IsoDep.
 Import ListNotations.
 Open Scope Z_scope.
 
 (* no block the reader puts on the air exceeds the frame size: PCB + INF + 2 EDC bytes <= miu + 3 = FSC,
-   for every command length, fault script, WTX plan and fuel *)
+   for every command length, fault script, WTX plan, budget and fuel *)
 Theorem C12_isodep_block_bound : forall app k kc cmd pn c, repaired k -> params_ok k kc -> in_step pn c -> 0 < len cmd ->
-  forall fuel sc, Forall (fun b => len b + 2 <= miu k + 3) (o_blocks (exchange app fuel k kc cmd pn c sc)).
-Proof. exact exchange_block_bound. Qed.
+  forall mx fuel sc, Forall (fun b => len b + 2 <= miu k + 3) (o_blocks (fst (exchangex app fuel k mx kc cmd pn c sc))).
+Proof. exact exchangex_block_bound. Qed.
 Print Assumptions C12_isodep_block_bound.
 
 (* ... and FSC as derived at activation never exceeds the card's frame size or what the device can send *)
@@ -30,63 +35,85 @@ Theorem C12_isodep_activation_fsc : forall fsci fwti max_send max_recv,
 Proof. exact t4_params_fsc. Qed.
 Print Assumptions C12_isodep_activation_fsc.
 
-(* without faults: every command size and response size (chaining both ways), S(WTX) at any and every
-   opportunity - the APDU is executed exactly once and its complete response is returned *)
+(* without faults: every command size and response size (chaining both ways), S(WTX) at any and every opportunity -
+   the APDU is executed exactly once and its complete response is returned, for every card that needs at most
+   m = max_extra_blocks (65538 at HEAD) S(WTX) requests + chained response blocks in this exchange *)
 Theorem C12_isodep_nofault_exact : forall app k kc cmd pn c, repaired k -> params_ok k kc -> in_step pn c -> 0 < len cmd ->
-  forall fuel sc, nofault sc -> enough_fuel app k cmd c fuel ->
-  let o := exchange app fuel k kc cmd pn c sc in
+  forall m fuel sc, nofault sc -> need_extra app kc cmd c <= m -> enough_fuel app k cmd c fuel ->
+  let o := fst (exchangex app fuel k (Some m) kc cmd pn c sc) in
   o_res o = Ok (response app c cmd) /\ execs (o_card o) = execs c ++ [cmd] /\ in_step (o_pni o) (o_card o).
-Proof. exact exchange_nofault_exact. Qed.
+Proof. exact exchangex_nofault_exact. Qed.
 Print Assumptions C12_isodep_nofault_exact.
 
-(* for EVERY fault script (and fuel): the card executes the APDU at most once, and nothing else *)
+(* for EVERY fault script, budget and fuel: the card executes the APDU at most once, and nothing else *)
 Theorem C12_isodep_at_most_once : forall app k kc cmd pn c, repaired k -> params_ok k kc -> in_step pn c -> 0 < len cmd ->
-  forall fuel sc, let o := exchange app fuel k kc cmd pn c sc in
+  forall mx fuel sc, let o := fst (exchangex app fuel k mx kc cmd pn c sc) in
   execs (o_card o) = execs c \/ execs (o_card o) = execs c ++ [cmd].
-Proof. exact exchange_at_most_once. Qed.
+Proof. exact exchangex_at_most_once. Qed.
 Print Assumptions C12_isodep_at_most_once.
 
-(* for EVERY fault script: a returned value is the complete response of the single execution of this APDU
+(* for EVERY fault script and budget: a returned value is the complete response of the single execution of this APDU
    (never truncated, duplicated or stale) and leaves reader and card in step; anything else is
    Type4TagCommandError - no raw clf error, no crash; Hang only if the fuel was below the bound *)
 Theorem C12_isodep_result_sound : forall app k kc cmd pn c, repaired k -> params_ok k kc -> in_step pn c -> 0 < len cmd ->
-  forall fuel sc, let o := exchange app fuel k kc cmd pn c sc in
+  forall mx fuel sc, let o := fst (exchangex app fuel k mx kc cmd pn c sc) in
   match o_res o with
   | Ok r => r = response app c cmd /\ execs (o_card o) = execs c ++ [cmd] /\ in_step (o_pni o) (o_card o)
   | Err (TagCommandError _) => True
   | Hang => Z.of_nat fuel < fuel_bound app k cmd (execs c) c
   | _ => False
   end.
-Proof. exact exchange_result_sound. Qed.
+Proof. exact exchangex_result_sound. Qed.
 Print Assumptions C12_isodep_result_sound.
 
-(* for EVERY fault script the exchange ends within fuel_bound = O((|cmd| + |response|) * budget + #WTX) rounds:
-   the reader never hangs against the conformant card *)
+(* for EVERY fault script and budget the exchange ends within fuel_bound = O((|cmd| + |response|) * budget + #WTX)
+   rounds: the reader never hangs against the conformant card *)
 Theorem C12_isodep_terminates : forall app k kc cmd pn c, repaired k -> params_ok k kc -> in_step pn c -> 0 < len cmd ->
-  forall fuel sc, enough_fuel app k cmd c fuel ->
-  let o := exchange app fuel k kc cmd pn c sc in
+  forall mx fuel sc, enough_fuel app k cmd c fuel ->
+  let o := fst (exchangex app fuel k mx kc cmd pn c sc) in
   o_res o = Ok (response app c cmd) \/ exists e, o_res o = Err (TagCommandError e).
-Proof. exact exchange_terminates. Qed.
+Proof. exact exchangex_terminates. Qed.
 Print Assumptions C12_isodep_terminates.
 
 (* "any pattern of lost or corrupted blocks the recovery rules can absorb": EVERY script with at most F faulty
    rounds (any kind, anywhere in the exchange, chaining and WTX included) is absorbed and yields the exact result
-   when 2F-1 <= retry budget (budget 1: one fault, 3: two, 5: three); F = 0 is the fault-free case.
-   (The code counts R(ACK)-triggered retransmissions against the same budget, hence 2F-1; patterns beyond this
-   bound that the monitor classifies as absorbable are checked by the harness only.) *)
+   when 2F-1 <= retry budget (budget 1: one fault, 3: two, 5: three) and the card's needs plus F (a repeated S(WTX)
+   per faulty round) are within max_extra_blocks; F = 0 is the fault-free case.
+   (The code counts R(ACK)-triggered retransmissions against the same retry budget, hence 2F-1; patterns beyond
+   this bound that the monitor classifies as absorbable are checked by the harness only.) *)
 Theorem C12_isodep_absorbs : forall app k kc cmd pn c, repaired k -> params_ok k kc -> in_step pn c -> 0 < len cmd ->
-  forall fuel sc F, faults sc <= F -> 2 * F - 1 <= n_nak k -> 2 * F - 1 <= n_ack k -> enough_fuel app k cmd c fuel ->
-  let o := exchange app fuel k kc cmd pn c sc in
+  forall m fuel sc F, faults sc <= F -> 2 * F - 1 <= n_nak k -> 2 * F - 1 <= n_ack k ->
+  need_extra app kc cmd c + F <= m -> enough_fuel app k cmd c fuel ->
+  let o := fst (exchangex app fuel k (Some m) kc cmd pn c sc) in
   o_res o = Ok (response app c cmd) /\ execs (o_card o) = execs c ++ [cmd] /\ in_step (o_pni o) (o_card o).
-Proof. exact exchange_absorbs. Qed.
+Proof. exact exchangex_absorbs. Qed.
 Print Assumptions C12_isodep_absorbs.
+
+(* the budget made explicit.  Counted without budget (mx = None) n_extra never exceeds what the card announces plus
+   one per faulty round; while that is within m the exchange at HEAD IS the exchange of the reader without budget;
+   once the reader without budget would count more than m, the result at HEAD is Type4TagCommandError(PROTOCOL_ERROR)
+   - and by C12_isodep_at_most_once the APDU has still been executed at most once *)
+Theorem C12_isodep_extra_count : forall app k kc cmd pn c, repaired k -> params_ok k kc -> in_step pn c -> 0 < len cmd ->
+  forall fuel sc, snd (exchangex app fuel k None kc cmd pn c sc) <= need_extra app kc cmd c + faults sc.
+Proof. exact exchangex_count. Qed.
+Print Assumptions C12_isodep_extra_count.
+Theorem C12_isodep_budget_transparent : forall app k kc cmd pn c, repaired k -> params_ok k kc -> in_step pn c -> 0 < len cmd ->
+  forall m fuel sc, need_extra app kc cmd c + faults sc <= m ->
+  fst (exchangex app fuel k (Some m) kc cmd pn c sc) = exchange app fuel k kc cmd pn c sc.
+Proof. exact exchangex_transparent. Qed.
+Print Assumptions C12_isodep_budget_transparent.
+Theorem C12_isodep_over_budget : forall app k kc cmd pn c m fuel sc, 0 <= m ->
+  m < snd (exchangex app fuel k None kc cmd pn c sc) ->
+  o_res (fst (exchangex app fuel k (Some m) kc cmd pn c sc)) = Err (TagCommandError E_PROTOCOL).
+Proof. intros app k kc cmd pn c. exact (exchangex_over_budget app k kc cmd pn c). Qed.
+Print Assumptions C12_isodep_over_budget.
 
 (* Type4Tag.send_apdu on top: a returned value is the response of the single execution of the encoded APDU with
    status word 9000 stripped (check_status) or included; anything else is Type4TagCommandError (status word or
    transmission failure) or the documented ValueError before anything is sent *)
-Theorem C12_send_apdu_sound : forall app k kc cla ins p1 p2 data mrl check pn c,
+Theorem C12_send_apdu_sound : forall app k mx kc cla ins p1 p2 data mrl check pn c,
   repaired k -> params_ok k kc -> in_step pn c ->
-  forall fuel sc, let o := send_apdu app fuel k kc cla ins p1 p2 data mrl check pn c sc in
+  forall fuel sc, let o := send_apdux app fuel k mx kc cla ins p1 p2 data mrl check pn c sc in
   match apdu_build cla ins p1 p2 data mrl with
   | Ok a =>
       (execs (o_card o) = execs c \/ execs (o_card o) = execs c ++ [a]) /\
@@ -109,16 +136,16 @@ Print Assumptions C12_send_apdu_sound.
    command, (c) reader and card are in step again, and the rest of the session satisfies the spec;
    Type4TagCommandError (or fuel exhausted) -> the log grew by at most that one command, and NOTHING is claimed
    about later exchanges; raw clf errors and crashes do not occur. *)
-Theorem C12_session_sound : forall app k kc, repaired k -> params_ok k kc ->
+Theorem C12_session_sound : forall app k mx kc, repaired k -> params_ok k kc ->
   forall cmds fuel sc pn c, in_step pn c -> Forall (fun x => 0 < len (fst x)) cmds ->
-  sess_spec app (execs c) cmds (session1 app fuel k kc pn c cmds sc).
+  sess_spec app (execs c) cmds (session1 app fuel k mx kc pn c cmds sc).
 Proof. exact session_sound. Qed.
 Print Assumptions C12_session_sound.
 (* hence: if every exchange returned a value, the values are the responses to their own commands, in order, and the
    card's log is exactly the list of commands, each executed once, in order - for every script and every WTX plan *)
-Theorem C12_session_all_ok : forall app k kc, repaired k -> params_ok k kc ->
+Theorem C12_session_all_ok : forall app k mx kc, repaired k -> params_ok k kc ->
   forall cmds fuel sc pn c, in_step pn c -> Forall (fun x => 0 < len (fst x)) cmds ->
-  let outs := session1 app fuel k kc pn c cmds sc in
+  let outs := session1 app fuel k mx kc pn c cmds sc in
   Forall (fun o => is_ok (o_res o) = true) outs ->
   map o_res outs = expected app (execs c) cmds /\ final_log (execs c) outs = execs c ++ map fst cmds.
 Proof. exact session_all_ok. Qed.
@@ -256,6 +283,25 @@ Theorem C12_bridge_absorb_recv : forall k cmd, fix_wtx_chain k = true ->
 Proof. exact bridge_absorb_recv. Qed.
 Print Assumptions C12_bridge_absorb_recv.
 
+(* the shared budget (b65ae89): constant, counter and tests, and the model's budgeted transition function *)
+Theorem C12_bridge_extra : forall n m,
+  gen_max_extra_blocks = MAX_EXTRA_BLOCKS /\ gen_extra_init = 0 /\
+  gen_send_extra_incr n = n + 1 /\ gen_recv_extra_incr n = n + 1 /\ gen_chain_extra_incr n = n + 1 /\
+  gen_send_extra_over n m = over (Some m) n /\ gen_recv_extra_over n m = over (Some m) n /\
+  gen_chain_extra_over n m = over (Some m) n /\ gen_chain_errno_over = E_PROTOCOL.
+Proof. exact bridge_extra. Qed.
+Print Assumptions C12_bridge_extra.
+Theorem C12_bridge_absorb_send_x : forall k cmd, fix_wtx_try k = true -> fix_rack k = true ->
+  forall pn off i d0 n m a,
+  pcd_absorb_x k (Some m) cmd {| xp := mkp pn (PSend off i d0); nx := n |} a = k_absorb_send_x k cmd pn off i n m a.
+Proof. exact bridge_absorb_send_x. Qed.
+Print Assumptions C12_bridge_absorb_send_x.
+Theorem C12_bridge_absorb_recv_x : forall k cmd, fix_wtx_chain k = true ->
+  forall pn i d0 rsp n m a,
+  pcd_absorb_x k (Some m) cmd {| xp := mkp pn (PRecv i d0 rsp); nx := n |} a = k_absorb_recv_x k pn i rsp n m a.
+Proof. exact bridge_absorb_recv_x. Qed.
+Print Assumptions C12_bridge_absorb_recv_x.
+
 (* non-vacuity: a 20-byte command and 20-byte response over FSC 16 (chaining both ways), two S(WTX),
    four faulty rounds, budget 3 - meets every hypothesis above and completes *)
 Example C12_nonvacuous :
@@ -271,3 +317,13 @@ Example C12_session_nonvacuous :
   final_log [] nvs_session = [nv_cmd; [255; 9; 0; 3]; [255; 3; 0; 30]] /\
   map (fun o => length (o_blocks o)) nvs_session = [5%nat; 1%nat; 4%nat].
 Proof. exact nvs_run. Qed.
+
+(* non-vacuity at HEAD: the exchange of C12_nonvacuous under max_extra_blocks = 65538 (it needs 3 of the budget, the
+   script has 4 faulty rounds), and the same exchange under a budget of 2: PROTOCOL_ERROR, executed once *)
+Example C12_budget_nonvacuous :
+  need_extra demo_app kc16 nv_cmd nv_card = 3 /\ faults nv_script = 4 /\
+  (let o := exchangex demo_app 900 k_nv (Some MAX_EXTRA_BLOCKS) kc16 nv_cmd 0 nv_card nv_script in
+   o_res (fst o) = Ok (demo_app 0 nv_cmd) /\ execs (o_card (fst o)) = [nv_cmd] /\ snd o = 3) /\
+  (let o := exchangex demo_app 900 k_nv (Some 2) kc16 nv_cmd 0 nv_card nv_script in
+   o_res (fst o) = Err (TagCommandError E_PROTOCOL) /\ execs (o_card (fst o)) = [nv_cmd]).
+Proof. exact nvx_run. Qed.
